@@ -120,6 +120,32 @@ pub fn dispatch(a: &[String]) -> String {
       }
       format!("results={} {}", results.join(","), ws.verif_dump())
     }
+    "scope_after" => {
+      // scope_after <context literal> <expr> [<expr2>]: rendering of the scope before and after parse + evaluate
+      let scope = dmntk_feel::Scope::default();
+      let ctx = dmntk_feel_evaluator::evaluate_context(&scope, &a[1]).unwrap();
+      scope.push(ctx);
+      let before = scope.to_string();
+      let mut results = vec![];
+      for e in &a[2..] {
+        match dmntk_feel_parser::parse_expression(&scope, e, false) {
+          Ok(node) => {
+            let after_parse = scope.to_string();
+            if after_parse != before {
+              return format!("CHANGED by parse: {} -> {}", before, after_parse);
+            }
+            results.push(format!("{}", dmntk_feel_evaluator::evaluate(&scope, &node).unwrap()));
+          }
+          Err(err) => results.push(format!("parse error {}", err)),
+        }
+      }
+      let after = scope.to_string();
+      if after == before {
+        format!("SAME {} results {}", after, results.join(" ; "))
+      } else {
+        format!("CHANGED {} -> {} results {}", before, after, results.join(" ; "))
+      }
+    }
     _ => format!("UNKNOWN-COMMAND {}", a[0]),
   }
 }
